@@ -88,7 +88,10 @@ DoSetParams(s0, ev) ==
                          !.k = ev.k, !.n = ev.k + ev.r, !.len = ev.len, !.m = ev.m, !.payload = ev.payload,
                          !.npos = IF "npos" \in DOMAIN ev THEN ev.npos ELSE 0,
                          !.H = H,
-                         !.claim = ("lastnull" \in DOMAIN ev) /\ ev.lastnull = 1]
+                         \* the decoder may count the last repair symbol as received (a zero symbol) only when the
+                         \* claim is true of these equations (C15 judges the claim itself; here a false claim simply
+                         \* is not a received symbol, so whatever the decoder derives from it is flagged where it shows)
+                         !.claim = ("lastnull" \in DOMAIN ev) /\ ev.lastnull = 1 /\ TrulyNull(H, ev.k + ev.r)]
         cwFails ==
             IF ev.st = OK /\ "cw" \in DOMAIN ev /\ ev.role = "dec" /\ ev.codec \in {3, 5}
             THEN F(IsCodeword(H, [ e \in 0 .. (s1.n - 1) |-> Vec(ev.cw[e + 1]) ]), "INFRA", "driver-codeword-inconsistent")
